@@ -82,6 +82,8 @@ fn show<T: quote::ToTokens>(t: &T) -> String {
 pub struct Generics {
     map: HashMap<String, Ty>,
     known: Vec<String>,
+    /// `type RcBufferObserver<O, Item> = MutArc<Option<BufferObserver<O, Item>>>;` (parameters are positional)
+    aliases: HashMap<String, (Vec<String>, Type)>,
 }
 
 fn last_seg(p: &syn::Path) -> String {
@@ -97,11 +99,12 @@ fn type_args(p: &syn::Path) -> Vec<&Type> {
     }
 }
 
-const CELLS: &[&str] = &["MutRc", "MutArc", "Rc", "Arc", "RefCell", "Mutex"];
+const CELLS: &[&str] = &["MutRc", "MutArc", "Rc", "Arc", "RefCell", "Mutex", "Cell"];
+const PHANTOMS: &[&str] = &["TypeHint", "PhantomData"];
 
 impl Generics {
     fn of(gen: &syn::Generics, err_names: &[String], known: &[String]) -> Res<Generics> {
-        let mut g = Generics { map: HashMap::new(), known: known.to_vec() };
+        let mut g = Generics { map: HashMap::new(), known: known.to_vec(), aliases: HashMap::new() };
         let mut bounds: Vec<(String, Vec<TypeParamBound>)> = vec![];
         for p in &gen.params {
             if let GenericParam::Type(tp) = p {
@@ -192,7 +195,7 @@ impl Generics {
                 let args = type_args(&tp.path);
                 match name.as_str() {
                     "usize" | "u32" | "u64" | "u8" | "u16" => Ok(Ty::Nat),
-                    "bool" => Ok(Ty::Bool),
+                    "bool" | "AtomicBool" => Ok(Ty::Bool),
                     "Option" => Ok(Ty::Opt(Box::new(self.ty(args[0])?))),
                     "Vec" | "VecDeque" | "HashSet" => Ok(Ty::List(Box::new(self.ty(args[0])?))),
                     "Infallible" => Ok(Ty::Err),
@@ -205,6 +208,13 @@ impl Generics {
                         }
                         if self.known.contains(&name) {
                             return Ok(Ty::Named(name));
+                        }
+                        if let Some((ps, body)) = self.aliases.get(&name) {
+                            let mut g2 = self.clone();
+                            for (p, a) in ps.iter().zip(args.iter()) {
+                                g2.map.insert(p.clone(), self.ty(a)?);
+                            }
+                            return g2.ty(body);
                         }
                         bail(format!("type `{}` not understood", show(t)))
                     }
@@ -235,6 +245,21 @@ fn ident(s: &str) -> String {
     }
 }
 
+/// A user enum (`enum ZipItem<A, B> { ItemA(A), ItemB(B) }`): constructors with their argument types.
+#[derive(Clone)]
+pub struct EnumInfo {
+    pub name: String,
+    pub ctors: Vec<(String, Vec<Ty>)>,
+}
+
+/// Everything known about the file being translated.
+#[derive(Default)]
+pub struct Ctx {
+    pub structs: HashMap<String, StructInfo>,
+    pub enums: HashMap<String, EnumInfo>,
+    pub aliases: HashMap<String, (Vec<String>, Type)>,
+}
+
 pub struct MethodInfo {
     /// `&mut self` / `self` methods without result thread (self, out); `&self` methods with a result are pure
     pub effectful: bool,
@@ -245,6 +270,10 @@ pub struct StructInfo {
     pub name: String,
     pub fields: Vec<(String, Ty)>,
     pub methods: HashMap<String, MethodInfo>,
+    /// the state is not a record but a value of this type (`impl Observer for MutRc<Option<O>>`, newtypes)
+    pub root_ty: Option<Ty>,
+    /// Lean prefix of the functions (`Rx.Gen.RcObserver.` for structs of another module)
+    pub prefix: String,
 }
 
 impl StructInfo {
@@ -270,7 +299,7 @@ struct Place {
 /// Translation of one function body.
 pub struct Fx<'a> {
     strukt: &'a StructInfo,
-    structs: &'a HashMap<String, StructInfo>,
+    ctx: &'a Ctx,
     lines: Vec<String>,
     ind: usize,
     tmp: usize,
@@ -296,7 +325,7 @@ impl<'a> Fx<'a> {
     fn sub(&self) -> Fx<'a> {
         Fx {
             strukt: self.strukt,
-            structs: self.structs,
+            ctx: self.ctx,
             lines: vec![],
             ind: 0,
             tmp: self.tmp + 100,
@@ -312,7 +341,7 @@ impl<'a> Fx<'a> {
             if n == &self.strukt.name {
                 return Some(self.strukt);
             }
-            return self.structs.get(n);
+            return self.ctx.structs.get(n);
         }
         None
     }
@@ -366,7 +395,11 @@ impl<'a> Fx<'a> {
                 Ok(Place { root_self: false, local: n, path: vec![] })
             }
             Expr::MethodCall(m)
-                if m.args.is_empty() && matches!(m.method.to_string().as_str(), "as_mut" | "as_ref" | "borrow_mut" | "borrow") =>
+                if m.args.is_empty()
+                    && matches!(
+                        m.method.to_string().as_str(),
+                        "as_mut" | "as_ref" | "borrow_mut" | "borrow" | "rc_deref" | "rc_deref_mut" | "clone" | "as_deref_mut"
+                    ) =>
             {
                 self.place(&m.receiver)
             }
@@ -386,8 +419,12 @@ impl<'a> Fx<'a> {
         }
     }
 
+    fn root_ty(&self) -> Ty {
+        self.strukt.root_ty.clone().unwrap_or_else(|| Ty::Named(self.strukt.name.clone()))
+    }
+
     fn place_ty(&self, p: &Place) -> Option<Ty> {
-        let mut t = if p.root_self { Ty::Named(self.strukt.name.clone()) } else { self.locals.get(&p.local)?.clone() };
+        let mut t = if p.root_self { self.root_ty() } else { self.locals.get(&p.local)?.clone() };
         for s in &p.path {
             t = match s {
                 Seg::Field(f) => self.struct_of(&t)?.field_ty(f)?.clone(),
@@ -458,7 +495,7 @@ impl<'a> Fx<'a> {
             }
             Expr::MethodCall(m) => {
                 if self.is_root(e) {
-                    return Some(Ty::Named(self.strukt.name.clone()));
+                    return Some(self.root_ty());
                 }
                 let n = m.method.to_string();
                 let rt = self.tyx(&m.receiver)?;
@@ -482,6 +519,9 @@ impl<'a> Fx<'a> {
                     f = &p.expr;
                 }
                 if let Expr::Path(p) = f {
+                    if let Some(en) = self.enum_of_path(&p.path) {
+                        return Some(Ty::Named(en));
+                    }
                     if last_seg(&p.path) == "Some" && c.args.len() == 1 {
                         return Some(Ty::Opt(Box::new(self.tyx(&c.args[0])?)));
                     }
@@ -494,7 +534,7 @@ impl<'a> Fx<'a> {
                 }
                 None
             }
-            Expr::Tuple(t) => Some(Ty::Tuple(t.elems.iter().map(|x| self.tyx(x)).collect::<Option<Vec<_>>>()?)),
+            Expr::Tuple(t) => Some(Ty::Tuple(t.elems.iter().map(|x| self.tyx(x).unwrap_or(Ty::Named("_".into()))).collect())),
             Expr::Lit(l) => match &l.lit {
                 Lit::Int(_) => Some(Ty::Nat),
                 Lit::Bool(_) => Some(Ty::Bool),
@@ -532,7 +572,12 @@ impl<'a> Fx<'a> {
             }
             Pat::TupleStruct(ts) => {
                 let n = last_seg(&ts.path);
-                if n == "Some" && ts.elems.len() == 1 {
+                if let Some(en) = self.enum_of_path(&ts.path) {
+                    let tys = self.ctx.enums[&en].ctors.iter().find(|(c, _)| c == &n).map(|x| x.1.clone()).unwrap_or_default();
+                    for (i, e) in ts.elems.iter().enumerate() {
+                        self.bind(e, tys.get(i).cloned());
+                    }
+                } else if n == "Some" && ts.elems.len() == 1 {
                     let ti = match t {
                         Some(Ty::Opt(t)) => Some(*t),
                         _ => None,
@@ -573,6 +618,9 @@ impl<'a> Fx<'a> {
             Pat::TupleStruct(ts) => {
                 let n = last_seg(&ts.path);
                 let parts = ts.elems.iter().map(|e| self.pat(e)).collect::<Res<Vec<_>>>()?;
+                if let Some(en) = self.enum_of_path(&ts.path) {
+                    return Ok(format!("({}.{} {})", en, n, parts.join(" ")));
+                }
                 match (n.as_str(), parts.len()) {
                     ("Some", 1) => Ok(format!("(some {})", parts[0])),
                     _ => bail(format!("pattern `{}`", show(p))),
@@ -590,6 +638,20 @@ impl<'a> Fx<'a> {
             Pat::Type(pt) => self.pat(&pt.pat),
             _ => bail(format!("pattern `{}`", show(p))),
         }
+    }
+
+    /// `ZipItem::ItemA` → the enum's name, if it is a translated enum
+    fn enum_of_path(&self, p: &syn::Path) -> Option<String> {
+        if p.segments.len() == 2 {
+            let e = p.segments[0].ident.to_string();
+            let c = p.segments[1].ident.to_string();
+            if let Some(ei) = self.ctx.enums.get(&e) {
+                if ei.ctors.iter().any(|(n, _)| n == &c) {
+                    return Some(e);
+                }
+            }
+        }
+        None
     }
 
     fn is_irrefutable(p: &Pat) -> bool {
@@ -636,6 +698,22 @@ impl<'a> Fx<'a> {
                         return Ok(());
                     }
                 }
+                // `let S { a, b, .. } = &mut *inner;` — names for the fields
+                if let Pat::Struct(ps) = &l.pat {
+                    let base = self.place(&init.expr)?;
+                    for fp in &ps.fields {
+                        if let (Member::Named(n), Pat::Ident(pi)) = (&fp.member, &*fp.pat) {
+                            let mut pl = base.clone();
+                            pl.path.push(Seg::Field(n.to_string()));
+                            let ln = ident(&pi.ident.to_string());
+                            self.locals.remove(&ln);
+                            self.aliases.insert(ln, pl);
+                        } else {
+                            return bail("nested pattern in a struct destructuring");
+                        }
+                    }
+                    return Ok(());
+                }
                 let t = self.tyx(&init.expr);
                 let v = self.expr(&init.expr)?;
                 let p = self.pat(&l.pat)?;
@@ -667,6 +745,40 @@ impl<'a> Fx<'a> {
 
     fn if_let(&mut self, l: &syn::ExprLet, then: &Block, els: Option<&Expr>) -> Res<()> {
         let t = self.tyx(&l.expr);
+        // the payload of an optional struct, borrowed mutably: work on a copy, write it back at the end of the arm
+        if let (Some(Ty::Opt(inner)), Pat::TupleStruct(ts)) = (&t, &*l.pat) {
+            if matches!(&**inner, Ty::Named(_)) && last_seg(&ts.path) == "Some" && ts.elems.len() == 1 {
+                if let (Pat::Ident(pi), Ok(pl)) = (&ts.elems[0], self.place(&l.expr)) {
+                    let v = ident(&pi.ident.to_string());
+                    let cur = self.read_place(&pl);
+                    let saved_l = self.locals.clone();
+                    let saved_a = self.aliases.clone();
+                    self.emit(format!("match {} with", cur));
+                    self.emit(format!("| (some {}0) =>", v));
+                    self.ind += 2;
+                    self.emit(format!("let mut {} := {}0", v, v));
+                    self.aliases.remove(&v);
+                    self.locals.insert(v.clone(), (**inner).clone());
+                    for st in &then.stmts {
+                        self.stmt(st)?;
+                    }
+                    if self.effectful {
+                        self.write_place(&pl, &format!("(some {})", v))?;
+                    }
+                    self.ind -= 2;
+                    self.locals = saved_l;
+                    self.aliases = saved_a;
+                    self.emit("| none =>");
+                    self.ind += 2;
+                    match els {
+                        Some(eb) => self.else_stmts(eb)?,
+                        None => self.emit("pure ()"),
+                    }
+                    self.ind -= 2;
+                    return Ok(());
+                }
+            }
+        }
         let scrut = self.expr(&l.expr)?;
         let p = self.pat(&l.pat)?;
         let saved_l = self.locals.clone();
@@ -1082,6 +1194,22 @@ impl<'a> Fx<'a> {
             };
         }
         if let Expr::Path(p) = f {
+            if let Some(en) = self.enum_of_path(&p.path) {
+                let args = c.args.iter().map(|a| self.expr(a)).collect::<Res<Vec<_>>>()?;
+                return Ok(format!("({}.{} {})", en, last_seg(&p.path), args.join(" ")));
+            }
+            // a local name for a closure field (`let S { binary_op, .. } = &mut *inner; binary_op(a, b)`)
+            if p.path.segments.len() == 1 {
+                if let Ok(pl) = self.place(f) {
+                    if let Some(Ty::Fun(ps, _)) = self.place_ty(&pl) {
+                        let args = c.args.iter().map(|a| self.expr(a)).collect::<Res<Vec<_>>>()?;
+                        if ps.len() != args.len() {
+                            return bail("closure arity");
+                        }
+                        return Ok(format!("({} {})", self.read_place(&pl), args.join(" ")));
+                    }
+                }
+            }
             let full: Vec<String> = p.path.segments.iter().map(|s| s.ident.to_string()).collect();
             let name = full.last().unwrap().as_str();
             let args: Vec<&Expr> = c.args.iter().collect();
@@ -1117,19 +1245,24 @@ impl<'a> Fx<'a> {
         if mi.params.len() != args.len() {
             return bail(format!("arity of `{}::{}`", si.name, mname));
         }
-        let a = args.iter().map(|x| self.expr(x)).collect::<Res<Vec<_>>>()?;
+        let mut a = args.iter().map(|x| self.expr(x)).collect::<Res<Vec<_>>>()?;
+        for (k, (_, pt)) in mi.params.iter().enumerate() {
+            if *pt == Ty::Val {
+                a[k] = format!("(Rs.ToVal.toVal {})", a[k]);
+            }
+        }
         let pl = self.place(recv)?;
         let cur = self.read_place(&pl);
         if mi.effectful {
             let t = self.fresh("t");
-            self.emit(format!("let {} ← {}.{} {} {}", t, si.name, mname, cur, a.join(" ")));
+            self.emit(format!("let {} ← {}{}.{} {} {}", t, si.prefix, si.name, mname, cur, a.join(" ")));
             self.write_place(&pl, &format!("{}.1", t))?;
             self.emit(format!("out := out ++ {}.2", t));
             Ok("()".into())
         } else if mname == "is_finished" {
-            Ok(format!("({}.is_finished {} down)", si.name, cur))
+            Ok(format!("({}{}.is_finished {} down)", si.prefix, si.name, cur))
         } else {
-            Ok(format!("({}.{} {} {})", si.name, mname, cur, a.join(" ")))
+            Ok(format!("({}{}.{} {} {})", si.prefix, si.name, mname, cur, a.join(" ")))
         }
     }
 
@@ -1150,9 +1283,29 @@ impl<'a> Fx<'a> {
                 return bail(format!("method `{}::{}` is not translated", si.name, name));
             }
         }
+        // a shared slot `MutRc<Option<O>>` used as an observer (`impl_rc_observer!` of src/observer.rs)
+        if rt == Some(Ty::Opt(Box::new(Ty::Obs))) && matches!((name.as_str(), nargs), ("next", 1) | ("error", 1) | ("complete", 0) | ("is_finished", 0)) {
+            if let Some(si) = self.ctx.structs.get("RcObserver") {
+                return self.struct_call(si, &name, &m.receiver, &args);
+            }
+            return bail("the slot observer (RcObserver) is not available in this module");
+        }
+        // `Cell<bool>` / `AtomicBool`
+        if rt == Some(Ty::Bool) {
+            match (name.as_str(), nargs) {
+                ("get", 0) | ("load", 1) => return self.expr(&m.receiver),
+                ("set", 1) | ("store", 2) => {
+                    let v = self.expr(args[0])?;
+                    let pl = self.place(&m.receiver)?;
+                    self.write_place(&pl, &v)?;
+                    return Ok("()".into());
+                }
+                _ => {}
+            }
+        }
         match (name.as_str(), nargs) {
             ("clone", 0) | ("as_ref", 0) | ("as_mut", 0) | ("borrow", 0) | ("borrow_mut", 0) | ("to_owned", 0) | ("iter", 0)
-            | ("into_iter", 0) => self.expr(&m.receiver),
+            | ("into_iter", 0) | ("rc_deref", 0) | ("rc_deref_mut", 0) => self.expr(&m.receiver),
             // ---- the downstream observer
             ("next", 1) | ("error", 1) | ("complete", 0) | ("is_finished", 0) => {
                 if rt != Some(Ty::Obs) {
@@ -1358,12 +1511,14 @@ fn impl_target(t: &Type) -> Option<(String, Vec<&Type>, bool)> {
     }
 }
 
+/// impls whose self type is `name<..>` (possibly behind a cell); for the pseudo struct `RcObserver` the impls
+/// for `$rc<Option<O>>` (`impl_rc_observer!`)
 fn impls_of<'f>(items: &'f [Item], name: &str) -> Vec<&'f ItemImpl> {
     items
         .iter()
         .filter_map(|i| match i {
             Item::Impl(im) => match impl_target(&im.self_ty) {
-                Some((n, _, _)) if n == name => Some(im),
+                Some((n, _, cell)) if n == name || (name == "RcObserver" && n == "Option" && cell) => Some(im),
                 _ => None,
             },
             _ => None,
@@ -1390,15 +1545,74 @@ struct FnUnit<'f> {
     f: &'f syn::ImplItemFn,
 }
 
+pub fn parse_spec(spec: &str) -> Ty {
+    match spec {
+        "slot" => Ty::Opt(Box::new(Ty::Obs)),
+        "optval" => Ty::Opt(Box::new(Ty::Val)),
+        "val" => Ty::Val,
+        "bool" => Ty::Bool,
+        "obs" => Ty::Obs,
+        _ if spec.starts_with("named:") => Ty::Named(spec[6..].to_string()),
+        _ if spec.starts_with("opt:") => Ty::Opt(Box::new(parse_spec(&spec[4..]))),
+        _ => panic!("bad type spec {}", spec),
+    }
+}
+
+fn generics_for(gen: &syn::Generics, err_names: &[String], ctx: &Ctx, hints: &HashMap<String, Ty>) -> Res<Generics> {
+    let mut known: Vec<String> = ctx.structs.keys().cloned().collect();
+    known.extend(ctx.enums.keys().cloned());
+    let mut g = Generics::of(gen, err_names, &known)?;
+    g.aliases = ctx.aliases.clone();
+    for (k, v) in hints {
+        g.map.insert(k.clone(), v.clone());
+    }
+    Ok(g)
+}
+
+fn is_phantom(t: &Type) -> bool {
+    matches!(t, Type::Path(tp) if PHANTOMS.contains(&last_seg(&tp.path).as_str()))
+}
+
+/// `enum ZipItem<A, B> { ItemA(A), ItemB(B) }` → a Lean inductive (type parameters read as `Val`)
+pub fn translate_enum(items: &[Item], name: &str, ctx: &mut Ctx) -> Res<String> {
+    let en = items
+        .iter()
+        .find_map(|i| match i {
+            Item::Enum(e) if e.ident == name => Some(e),
+            _ => None,
+        })
+        .ok_or(format!("enum {} not found", name))?;
+    let g = generics_for(&en.generics, &[], ctx, &HashMap::new())?;
+    let mut ctors = vec![];
+    let mut s = format!("inductive {} where\n", name);
+    for v in &en.variants {
+        let mut tys = vec![];
+        match &v.fields {
+            Fields::Unnamed(u) => {
+                for f in &u.unnamed {
+                    tys.push(g.ty(&f.ty)?);
+                }
+            }
+            Fields::Unit => {}
+            _ => return bail("enum variant with named fields"),
+        }
+        let args: String = tys.iter().enumerate().map(|(i, t)| format!(" (a{} : {})", i, t.lean())).collect();
+        writeln!(s, "  | {}{}", v.ident, args).unwrap();
+        ctors.push((v.ident.to_string(), tys));
+    }
+    s.push('\n');
+    ctx.enums.insert(name.to_string(), EnumInfo { name: name.to_string(), ctors });
+    Ok(s)
+}
+
 /// Translate one observer struct with its `impl Observer` and inherent helper methods.
-pub fn translate_observer(items: &[Item], name: &str, structs: &mut HashMap<String, StructInfo>) -> Res<String> {
-    let st = find_struct(items, name).ok_or(format!("struct {} not found", name))?;
+pub fn translate_observer(items: &[Item], name: &str, ctx: &mut Ctx, hints: &HashMap<String, Ty>) -> Res<String> {
+    let pseudo = name == "RcObserver";
     let impls = impls_of(items, name);
     let obs_impl = impls
         .iter()
         .find(|im| matches!(&im.trait_, Some(tr) if last_seg(&tr.0) == "Observer"))
         .ok_or(format!("impl Observer for {} not found", name))?;
-    // the error type parameter: second argument of Observer<Item, Err>
     let tr = &obs_impl.trait_.as_ref().unwrap().0;
     let targs = type_args(tr);
     let mut err_names = vec![];
@@ -1407,37 +1621,60 @@ pub fn translate_observer(items: &[Item], name: &str, structs: &mut HashMap<Stri
             err_names.push(last_seg(&tp.path));
         }
     }
-    let known: Vec<String> = structs.keys().cloned().chain(std::iter::once(name.to_string())).collect();
-    let g = Generics::of(&obs_impl.generics, &err_names, &known)?;
-    // the struct's own parameter names ↦ the impl's arguments
-    let (_, iargs, _) = impl_target(&obs_impl.self_ty).unwrap();
-    let sparams: Vec<String> = st
-        .generics
-        .params
-        .iter()
-        .filter_map(|p| if let GenericParam::Type(t) = p { Some(t.ident.to_string()) } else { None })
-        .collect();
-    let mut sg = Generics { map: HashMap::new(), known: known.clone() };
-    for (p, a) in sparams.iter().zip(iargs.iter()) {
-        sg.map.insert(p.clone(), g.ty(a)?);
-    }
+    ctx.structs.entry(name.to_string()).or_insert(StructInfo {
+        name: name.to_string(),
+        fields: vec![],
+        methods: HashMap::new(),
+        root_ty: None,
+        prefix: String::new(),
+    });
+    let g = generics_for(&obs_impl.generics, &err_names, ctx, hints)?;
     let mut fields = vec![];
+    let mut root_ty: Option<Ty> = None;
     let mut newtype = false;
-    match &st.fields {
-        Fields::Named(nf) => {
-            for f in &nf.named {
-                let n = f.ident.as_ref().unwrap().to_string();
-                let t = sg.ty(&f.ty).map_err(|e| format!("field {}: {}", n, e))?;
-                fields.push((n, t));
+    if pseudo {
+        root_ty = Some(Ty::Opt(Box::new(Ty::Obs)));
+    } else {
+        let st = find_struct(items, name).ok_or(format!("struct {} not found", name))?;
+        // the struct's own parameter names ↦ the impl's arguments
+        let (_, iargs, _) = impl_target(&obs_impl.self_ty).unwrap();
+        let sparams: Vec<String> = st
+            .generics
+            .params
+            .iter()
+            .filter_map(|p| if let GenericParam::Type(t) = p { Some(t.ident.to_string()) } else { None })
+            .collect();
+        let mut sg = generics_for(&syn::Generics::default(), &[], ctx, &HashMap::new())?;
+        for (p, a) in sparams.iter().zip(iargs.iter()) {
+            match g.ty(a) {
+                Ok(t) => {
+                    sg.map.insert(p.clone(), t);
+                }
+                Err(e) => {
+                    if !is_phantom(a) {
+                        return bail(format!("type argument `{}`: {}", show(*a), e));
+                    }
+                }
             }
         }
-        Fields::Unnamed(u) if u.unnamed.len() == 1 => {
-            // newtype around a cell holding another translated struct: the state IS that struct
-            newtype = true;
-            let t = sg.ty(&u.unnamed[0].ty).map_err(|e| format!("field 0: {}", e))?;
-            fields.push(("cell".to_string(), t));
+        match &st.fields {
+            Fields::Named(nf) => {
+                for f in &nf.named {
+                    if is_phantom(&f.ty) {
+                        continue;
+                    }
+                    let n = f.ident.as_ref().unwrap().to_string();
+                    let t = sg.ty(&f.ty).map_err(|e| format!("field {}: {}", n, e))?;
+                    fields.push((n, t));
+                }
+            }
+            Fields::Unnamed(u) if !u.unnamed.is_empty() && u.unnamed.iter().skip(1).all(|f| is_phantom(&f.ty)) => {
+                // newtype around a cell: the state IS what the cell holds
+                newtype = true;
+                root_ty = Some(sg.ty(&u.unnamed[0].ty).map_err(|e| format!("field 0: {}", e))?);
+            }
+            _ => return bail("struct shape"),
         }
-        _ => return bail("struct shape"),
     }
     // collect the functions: Observer methods + inherent methods
     let mut units: Vec<FnUnit> = vec![];
@@ -1457,11 +1694,11 @@ pub fn translate_observer(items: &[Item], name: &str, structs: &mut HashMap<Stri
         }
     }
     // signatures first (methods may call each other)
-    let mut info = StructInfo { name: name.to_string(), fields, methods: HashMap::new() };
+    let mut info = StructInfo { name: name.to_string(), fields, methods: HashMap::new(), root_ty: root_ty.clone(), prefix: String::new() };
     let mut sigs = vec![];
     for u in &units {
         let fname = u.f.sig.ident.to_string();
-        let gg = Generics::of(&merge_generics(&u.im.generics, &u.f.sig.generics), &err_names, &known)?;
+        let gg = generics_for(&merge_generics(&u.im.generics, &u.f.sig.generics), &err_names, ctx, hints)?;
         let recv = u.f.sig.inputs.first();
         let by_ref_only = matches!(recv, Some(FnArg::Receiver(r)) if matches!(&r.kind, syn::ReceiverKind::Reference(_, _, None)));
         if !matches!(recv, Some(FnArg::Receiver(_))) {
@@ -1472,11 +1709,11 @@ pub fn translate_observer(items: &[Item], name: &str, structs: &mut HashMap<Stri
             return bail(format!("{}::{}: a method that both mutates and returns a value", name, fname));
         }
         let mut params = vec![];
-        for a in u.f.sig.inputs.iter().skip(1) {
+        for (k, a) in u.f.sig.inputs.iter().skip(1).enumerate() {
             if let FnArg::Typed(pt) = a {
                 let pn = match &*pt.pat {
                     Pat::Ident(pi) => ident(&pi.ident.to_string()),
-                    Pat::Wild(_) => "_".to_string(),
+                    Pat::Wild(_) => format!("_x{}", k),
                     _ => return bail(format!("{}::{}: parameter pattern", name, fname)),
                 };
                 let ty = gg.ty(&pt.ty).map_err(|e| format!("{}::{}: {}", name, fname, e))?;
@@ -1487,46 +1724,47 @@ pub fn translate_observer(items: &[Item], name: &str, structs: &mut HashMap<Stri
         sigs.push((fname, params, !has_ret));
     }
     let mut s = String::new();
-    if newtype {
-        writeln!(s, "abbrev {} := {}\n", name, info.fields[0].1.lean()).unwrap();
-    } else {
-        writeln!(s, "structure {} where", name).unwrap();
-        for (n, t) in &info.fields {
-            writeln!(s, "  {} : {}", ident(n), t.lean()).unwrap();
+    let state_ty = match &root_ty {
+        Some(t) => {
+            writeln!(s, "abbrev {} := {}\n", name, t.lean()).unwrap();
+            name.to_string()
         }
-        writeln!(s).unwrap();
-    }
-    // for a newtype the state is the inner struct: translate with that struct as `strukt`
-    let inner_info;
-    let (strukt, lean_name): (&StructInfo, String) = if newtype {
-        match &info.fields[0].1 {
-            Ty::Named(n) => {
-                let inner = structs.get(n).ok_or(format!("inner struct {} not translated yet", n))?;
-                inner_info = StructInfo {
-                    name: inner.name.clone(),
-                    fields: inner.fields.clone(),
-                    methods: inner.methods.iter().map(|(k, v)| (k.clone(), MethodInfo { effectful: v.effectful, params: v.params.clone() })).collect(),
-                };
-                (&inner_info, name.to_string())
+        None => {
+            writeln!(s, "structure {} where", name).unwrap();
+            for (n, t) in &info.fields {
+                writeln!(s, "  {} : {}", ident(n), t.lean()).unwrap();
             }
-            Ty::Opt(_) => return bail("newtype around an optional cell"),
-            _ => return bail("newtype around something that is not a translated struct"),
+            writeln!(s).unwrap();
+            name.to_string()
         }
-    } else {
-        (&info, name.to_string())
     };
+    // register (signatures) before translating the bodies: methods may call each other
+    ctx.structs.insert(
+        name.to_string(),
+        StructInfo {
+            name: info.name.clone(),
+            fields: info.fields.clone(),
+            methods: info.methods.iter().map(|(k, v)| (k.clone(), MethodInfo { effectful: v.effectful, params: v.params.clone() })).collect(),
+            root_ty: info.root_ty.clone(),
+            prefix: String::new(),
+        },
+    );
     let mut errors = vec![];
-    // helpers before the Observer methods that use them: emit in dependency-free order (inherent first)
     let mut order: Vec<usize> = (0..units.len()).collect();
     order.sort_by_key(|i| units[*i].im.trait_.is_some());
+    let mut done: Vec<String> = vec![];
     for i in order {
         let u = &units[i];
         let fname = u.f.sig.ident.to_string();
+        if done.contains(&fname) {
+            continue; // the thread-safe twin of a hand-duplicated impl (same name): first one wins
+        }
         let Some((_, params, effectful)) = sigs.iter().find(|x| x.0 == fname) else { continue };
+        done.push(fname.clone());
         let ps: String = params.iter().map(|(n, t)| format!(" ({} : {})", n, t.lean())).collect();
         let mut fx = Fx {
-            strukt,
-            structs,
+            strukt: &info,
+            ctx,
             lines: vec![],
             ind: 1,
             tmp: 0,
@@ -1535,7 +1773,6 @@ pub fn translate_observer(items: &[Item], name: &str, structs: &mut HashMap<Stri
             effectful: *effectful,
             newtype,
         };
-        let sn = &strukt.name;
         if *effectful {
             let mut ok = true;
             for st in &u.f.block.stmts {
@@ -1546,7 +1783,7 @@ pub fn translate_observer(items: &[Item], name: &str, structs: &mut HashMap<Stri
                 }
             }
             if ok {
-                writeln!(s, "def {}.{} (self0 : {}){} : Option ({} × Rs.Out) := do", lean_name, fname, sn, ps, sn).unwrap();
+                writeln!(s, "def {}.{} (self0 : {}){} : Option ({} × Rs.Out) := do", name, fname, state_ty, ps, state_ty).unwrap();
                 writeln!(s, "  let mut self_ := self0").unwrap();
                 writeln!(s, "  let mut out : Rs.Out := []").unwrap();
                 for l in fx.lines {
@@ -1558,13 +1795,12 @@ pub fn translate_observer(items: &[Item], name: &str, structs: &mut HashMap<Stri
             match fx.pure_block(&u.f.block) {
                 Ok(v) => {
                     let down = if fname == "is_finished" { " (down : Bool)" } else { "" };
-                    writeln!(s, "def {}.{} (self_ : {}){}{} : Bool :=\n  {}\n", lean_name, fname, sn, ps, down, v).unwrap()
+                    writeln!(s, "def {}.{} (self_ : {}){}{} : Bool :=\n  {}\n", name, fname, state_ty, ps, down, v).unwrap()
                 }
                 Err(e) => errors.push(format!("{}::{}: {}", name, fname, e)),
             }
         }
     }
-    structs.insert(name.to_string(), info);
     if errors.is_empty() {
         Ok(s)
     } else {
@@ -1580,14 +1816,19 @@ pub fn translate_observer(items: &[Item], name: &str, structs: &mut HashMap<Stri
 struct InitFx<'a> {
     op_fields: HashMap<String, Ty>,
     used: Vec<(String, Ty)>,
-    structs: &'a HashMap<String, StructInfo>,
-    /// locals bound by `let x = self.f;` / `let Self { a, b } = self;`
+    ctx: &'a Ctx,
+    items: &'a [Item],
+    /// locals bound by `let x = self.f;` / `let Self { a, b } = self;` / parameters of `new`
     locals: HashMap<String, String>,
+    obs_locals: Vec<String>,
 }
 
 impl<'a> InitFx<'a> {
-    fn param(&mut self, f: &str) -> Res<String> {
-        let t = self.op_fields.get(f).ok_or(format!("operator field `{}` has no understood type", f))?.clone();
+    fn param(&mut self, f: &str, want: &Ty) -> Res<String> {
+        let mut t = self.op_fields.get(f).ok_or(format!("operator field `{}` has no understood type", f))?.clone();
+        if t == Ty::Val && matches!(want, Ty::Fun(..) | Ty::Counter) {
+            t = want.clone(); // the closure's signature is only known where it is used
+        }
         let n = ident(f);
         if !self.used.iter().any(|(x, _)| x == &n) {
             self.used.push((n.clone(), t));
@@ -1613,13 +1854,13 @@ impl<'a> InitFx<'a> {
                     return Ok("Rs.Obs.mk".into());
                 }
                 if let Some(f) = self.locals.get(&n).cloned() {
-                    return self.param(&f);
+                    return self.param(&f, want);
                 }
                 bail(format!("local `{}` in an initial state", n))
             }
             Expr::Field(f) if Fx::is_self(&f.base) => {
                 if let Member::Named(n) = &f.member {
-                    self.param(&n.to_string())
+                    self.param(&n.to_string(), want)
                 } else {
                     bail("tuple field of the operator")
                 }
@@ -1634,6 +1875,12 @@ impl<'a> InitFx<'a> {
                                 _ => return bail("Some(..) where no option is expected"),
                             };
                             return Ok(format!("(some {})", self.expr(&c.args[0], &inner)?));
+                        }
+                        ("new", 1)
+                            if p.path.segments.len() == 2
+                                && (CELLS.contains(&p.path.segments[0].ident.to_string().as_str()) || p.path.segments[0].ident == "AtomicBool") =>
+                        {
+                            return self.expr(&c.args[0], want)
                         }
                         ("new", 0) | ("default", 0) | ("with_capacity", 1) => return Ok("Rs.dflt".into()),
                         ("own", 1) => return self.expr(&c.args[0], want),
@@ -1654,7 +1901,8 @@ impl<'a> InitFx<'a> {
             }
             Expr::Struct(st) => {
                 let n = last_seg(&st.path);
-                let si = self.structs.get(&n).ok_or(format!("struct literal of `{}`", n))?;
+                let n = if n == "Self" { if let Ty::Named(w) = want { w.clone() } else { n } } else { n };
+                let si = self.ctx.structs.get(&n).ok_or(format!("struct literal of `{}`", n))?;
                 if st.rest.is_some() {
                     return bail("struct update syntax");
                 }
@@ -1664,7 +1912,7 @@ impl<'a> InitFx<'a> {
                         Member::Named(i) => i.to_string(),
                         _ => return bail("tuple struct literal"),
                     };
-                    let ft = si.field_ty(&fname).ok_or(format!("field `{}`", fname))?.clone();
+                    let Some(ft) = si.field_ty(&fname).cloned() else { continue }; // phantom field
                     let v = self.expr(&fv.expr, &ft)?;
                     parts.push(format!("{} := {}", ident(&fname), v));
                 }
@@ -1686,7 +1934,8 @@ fn find_struct_lit<'e>(e: &'e Expr, name: &str) -> Option<&'e syn::ExprStruct> {
         }
         match e {
             Expr::Struct(s) => {
-                if last_seg(&s.path) == v.name {
+                let n = last_seg(&s.path);
+                if n == v.name || n == "Self" {
                     v.found = Some(s);
                     return;
                 }
@@ -1730,8 +1979,9 @@ fn find_struct_lit<'e>(e: &'e Expr, name: &str) -> Option<&'e syn::ExprStruct> {
     v.found
 }
 
-/// `def XObserver.init (params…) : XObserver` from the struct literal inside `XOp::actual_subscribe`.
-pub fn translate_init(items: &[Item], op: &str, obs: &str, structs: &HashMap<String, StructInfo>) -> Res<String> {
+/// `def XObserver.init (params…) : XObserver` from the struct literal inside `XOp::actual_subscribe`
+/// (or, when `actual_subscribe` calls `XObserver::new(..)`, from the literal inside that `new`).
+pub fn translate_init(items: &[Item], op: &str, obs: &str, ctx: &Ctx, hints: &HashMap<String, Ty>) -> Res<String> {
     let st = find_struct(items, op).ok_or(format!("struct {} not found", op))?;
     let im = impls_of(items, op)
         .into_iter()
@@ -1745,8 +1995,7 @@ pub fn translate_init(items: &[Item], op: &str, obs: &str, structs: &HashMap<Str
             err_names.push(last_seg(&tp.path));
         }
     }
-    let known: Vec<String> = structs.keys().cloned().collect();
-    let g = Generics::of(&im.generics, &err_names, &known)?;
+    let g = generics_for(&im.generics, &err_names, ctx, hints)?;
     let (_, iargs, _) = impl_target(&im.self_ty).unwrap();
     let sparams: Vec<String> = st
         .generics
@@ -1754,7 +2003,7 @@ pub fn translate_init(items: &[Item], op: &str, obs: &str, structs: &HashMap<Str
         .iter()
         .filter_map(|p| if let GenericParam::Type(t) = p { Some(t.ident.to_string()) } else { None })
         .collect();
-    let mut sg = Generics { map: HashMap::new(), known };
+    let mut sg = generics_for(&syn::Generics::default(), &[], ctx, &HashMap::new())?;
     for (p, a) in sparams.iter().zip(iargs.iter()) {
         if let Ok(t) = g.ty(a) {
             sg.map.insert(p.clone(), t);
@@ -1776,8 +2025,8 @@ pub fn translate_init(items: &[Item], op: &str, obs: &str, structs: &HashMap<Str
             _ => None,
         })
         .ok_or("actual_subscribe not found")?;
-    let mut fx = InitFx { op_fields, used: vec![], structs, locals: HashMap::new() };
-    // `let Self { a, b, .. } = self;` and `let x = self.f;`
+    let mut fx = InitFx { op_fields, used: vec![], ctx, items, locals: HashMap::new(), obs_locals: vec![] };
+    let _ = (&fx.items, &fx.obs_locals);
     for s in &f.block.stmts {
         if let Stmt::Local(l) = s {
             if let (Pat::Struct(ps), Some(init)) = (&l.pat, &l.init) {
@@ -1801,10 +2050,190 @@ pub fn translate_init(items: &[Item], op: &str, obs: &str, structs: &HashMap<Str
         }
     }
     let body = Expr::Block(syn::ExprBlock { attrs: vec![], label: None, block: f.block.clone() });
-    let lit = find_struct_lit(&body, obs).ok_or(format!("no `{} {{ .. }}` literal in {}::actual_subscribe", obs, op))?;
-    let v = fx.expr(&Expr::Struct(lit.clone()), &Ty::Named(obs.to_string()))?;
+    let want = Ty::Named(obs.to_string());
+    let v = match find_struct_lit(&body, obs) {
+        Some(lit) => fx.expr(&Expr::Struct(lit.clone()), &want)?,
+        None => {
+            // `XObserver::new(observer, self.a, ..)`: the literal lives in the inherent `new`
+            let newf = impls_of(items, obs)
+                .into_iter()
+                .filter(|im| im.trait_.is_none())
+                .flat_map(|im| im.items.iter())
+                .find_map(|it| match it {
+                    ImplItem::Fn(f) if f.sig.ident == "new" => Some(f),
+                    _ => None,
+                })
+                .ok_or(format!("no `{} {{ .. }}` literal in {}::actual_subscribe and no {}::new", obs, op, obs))?;
+            // find the call `XObserver::new(args)` to map parameters to operator fields
+            struct C<'e> {
+                obs: String,
+                found: Option<&'e syn::ExprCall>,
+            }
+            fn walk<'e>(c: &mut C<'e>, e: &'e Expr) {
+                if c.found.is_some() {
+                    return;
+                }
+                match e {
+                    Expr::Call(call) => {
+                        if let Expr::Path(p) = &*call.func {
+                            let segs: Vec<String> = p.path.segments.iter().map(|s| s.ident.to_string()).collect();
+                            if segs.len() == 2 && segs[0] == c.obs && segs[1] == "new" {
+                                c.found = Some(call);
+                                return;
+                            }
+                        }
+                        for a in &call.args {
+                            walk(c, a);
+                        }
+                    }
+                    Expr::MethodCall(m) => {
+                        walk(c, &m.receiver);
+                        for a in &m.args {
+                            walk(c, a);
+                        }
+                    }
+                    Expr::Paren(p) => walk(c, &p.expr),
+                    Expr::Block(b) => {
+                        for s in &b.block.stmts {
+                            match s {
+                                Stmt::Local(l) => {
+                                    if let Some(i) = &l.init {
+                                        walk(c, &i.expr);
+                                    }
+                                }
+                                Stmt::Expr(e, _) => walk(c, e),
+                                _ => {}
+                            }
+                        }
+                    }
+                    _ => {}
+                }
+            }
+            let mut c = C { obs: obs.to_string(), found: None };
+            walk(&mut c, &body);
+            let call = c.found.ok_or(format!("no `{}::new(..)` call in {}::actual_subscribe", obs, op))?;
+            // parameters of `new` ↦ the argument expressions (operator fields)
+            let pnames: Vec<String> = newf
+                .sig
+                .inputs
+                .iter()
+                .filter_map(|a| if let FnArg::Typed(pt) = a { if let Pat::Ident(pi) = &*pt.pat { Some(pi.ident.to_string()) } else { None } } else { None })
+                .collect();
+            for (pn, arg) in pnames.iter().zip(call.args.iter()) {
+                if let Expr::Field(fe) = arg {
+                    if Fx::is_self(&fe.base) {
+                        if let Member::Named(n) = &fe.member {
+                            fx.locals.insert(pn.clone(), n.to_string());
+                        }
+                    }
+                }
+            }
+            let nb = Expr::Block(syn::ExprBlock { attrs: vec![], label: None, block: newf.block.clone() });
+            let lit = find_struct_lit(&nb, obs).ok_or(format!("no struct literal in {}::new", obs))?;
+            fx.expr(&Expr::Struct(lit.clone()), &want)?
+        }
+    };
     let ps: String = fx.used.iter().map(|(n, t)| format!(" ({} : {})", n, t.lean())).collect();
     Ok(format!("def {}.init{} : {} :=\n  {}\n\n", obs, ps, obs, v))
+}
+
+// ====================================================================== wiring (actual_subscribe)
+
+fn norm_tokens<T: quote::ToTokens>(t: &T) -> String {
+    let s = quote::quote!(#t).to_string();
+    let s = s.replace(". clone ()", "").replace(" :: ", "::").replace(" . ", ".").replace(" (", "(").replace("( ", "(").replace(" )", ")").replace(" ,", ",");
+    s.split_whitespace().collect::<Vec<_>>().join(" ")
+}
+
+/// The sharing topology an operator's `actual_subscribe` builds, as data: the cells it allocates (with their
+/// initial contents), which field of which observer holds which cell, and the order in which the inputs are
+/// subscribed.  The tie theorems pin these lists (`GenTie/Wiring.lean`).
+pub fn translate_wiring(items: &[Item], op: &str, observers: &[&str]) -> Res<String> {
+    let im = impls_of(items, op)
+        .into_iter()
+        .find(|im| matches!(&im.trait_, Some(tr) if last_seg(&tr.0) == "Observable"))
+        .ok_or(format!("impl Observable for {} not found", op))?;
+    let f = im
+        .items
+        .iter()
+        .find_map(|it| match it {
+            ImplItem::Fn(f) if f.sig.ident == "actual_subscribe" => Some(f),
+            _ => None,
+        })
+        .ok_or("actual_subscribe not found")?;
+    struct W<'o> {
+        observers: &'o [&'o str],
+        cells: Vec<(String, String)>,
+        views: Vec<(String, String, String)>,
+        order: Vec<(String, String)>,
+    }
+    fn walk(w: &mut W, e: &Expr) {
+        match e {
+            Expr::MethodCall(m) => {
+                walk(w, &m.receiver);
+                for a in &m.args {
+                    walk(w, a);
+                }
+                if m.method == "actual_subscribe" && m.args.len() == 1 {
+                    w.order.push((norm_tokens(&*m.receiver), norm_tokens(&m.args[0])));
+                }
+            }
+            Expr::Call(c) => {
+                for a in &c.args {
+                    walk(w, a);
+                }
+                if let Expr::Path(p) = &*c.func {
+                    let n = last_seg(&p.path);
+                    if p.path.segments.len() == 1 && w.observers.contains(&n.as_str()) {
+                        for (i, a) in c.args.iter().enumerate() {
+                            w.views.push((n.clone(), i.to_string(), norm_tokens(a)));
+                        }
+                    }
+                }
+            }
+            Expr::Struct(st) => {
+                let n = last_seg(&st.path);
+                for fv in &st.fields {
+                    walk(w, &fv.expr);
+                    if let Member::Named(i) = &fv.member {
+                        w.views.push((n.clone(), i.to_string(), norm_tokens(&fv.expr)));
+                    }
+                }
+            }
+            Expr::Paren(p) => walk(w, &p.expr),
+            Expr::Reference(p) => walk(w, &p.expr),
+            Expr::Tuple(t) => t.elems.iter().for_each(|x| walk(w, x)),
+            Expr::Block(b) => walk_block(w, &b.block),
+            _ => {}
+        }
+    }
+    fn walk_block(w: &mut W, b: &Block) {
+        for s in &b.stmts {
+            match s {
+                Stmt::Local(l) => {
+                    if let Some(i) = &l.init {
+                        walk(w, &i.expr);
+                        if let Pat::Ident(pi) = &l.pat {
+                            w.cells.push((pi.ident.to_string(), norm_tokens(&*i.expr)));
+                        }
+                    }
+                }
+                Stmt::Expr(e, _) => walk(w, e),
+                _ => {}
+            }
+        }
+    }
+    let mut w = W { observers, cells: vec![], views: vec![], order: vec![] };
+    walk_block(&mut w, &f.block);
+    let esc = |x: &str| x.replace('\\', "\\\\").replace('"', "\\\"");
+    let mut s = String::new();
+    writeln!(s, "/-- `let x = e;` of `{}::actual_subscribe`, in order -/", op).unwrap();
+    writeln!(s, "def {}.lets : List (String × String) :=\n  [{}]\n", op, w.cells.iter().map(|(a, b)| format!("(\"{}\", \"{}\")", esc(a), esc(b))).collect::<Vec<_>>().join(",\n   ")).unwrap();
+    writeln!(s, "/-- (observer, field, what it is initialised with) -/").unwrap();
+    writeln!(s, "def {}.views : List (String × String × String) :=\n  [{}]\n", op, w.views.iter().map(|(a, b, c)| format!("(\"{}\", \"{}\", \"{}\")", esc(a), esc(b), esc(c))).collect::<Vec<_>>().join(",\n   ")).unwrap();
+    writeln!(s, "/-- (input, the observer handed to it), in subscription order -/").unwrap();
+    writeln!(s, "def {}.order : List (String × String) :=\n  [{}]\n", op, w.order.iter().map(|(a, b)| format!("(\"{}\", \"{}\")", esc(a), esc(b))).collect::<Vec<_>>().join(",\n   ")).unwrap();
+    Ok(s)
 }
 
 // ====================================================================== macro_rules! expansion
@@ -1926,42 +2355,103 @@ fn main() {
     std::fs::create_dir_all(out).unwrap();
     let mut failed = 0;
     for ent in table::table() {
-        let path = src.join(ent.file);
         let mut lean = String::new();
         writeln!(lean, "/- GENERATED by /verif/rs2lean from src/{} — do not edit. -/", ent.file).unwrap();
-        writeln!(lean, "import RxModel.Gen.Prelude\nnamespace Rx.Gen.{}\nopen Rx\n", ent.module).unwrap();
-        let text = std::fs::read_to_string(&path).unwrap_or_default();
-        match syn::parse_file(&text) {
-            Err(e) => {
-                failed += 1;
-                writeln!(lean, "-- TRANSLATION FAILED: cannot parse {}: {}", ent.file, e).unwrap();
+        writeln!(lean, "import RxModel.Gen.Prelude").unwrap();
+        for i in ent.imports {
+            writeln!(lean, "import RxModel.Gen.{}", i).unwrap();
+        }
+        writeln!(lean, "namespace Rx.Gen.{}\nopen Rx\n", ent.module).unwrap();
+        // the items of the file (macro stamps expanded), plus those of the extra files
+        let mut items: Vec<Item> = vec![];
+        let mut parse_err = None;
+        for f in std::iter::once(&ent.file).chain(ent.extra_files.iter()) {
+            let text = std::fs::read_to_string(src.join(f)).unwrap_or_default();
+            match syn::parse_file(&text) {
+                Ok(file) => items.extend(expand_file(&file, ent.flavour)),
+                Err(e) => parse_err = Some(format!("cannot parse {}: {}", f, e)),
             }
-            Ok(file) => {
-                let items = expand_file(&file, ent.flavour);
-                let mut structs: HashMap<String, StructInfo> = HashMap::new();
-                for obs in ent.observers {
-                    match translate_observer(&items, obs, &mut structs) {
-                        Ok(s) => lean += &s,
-                        Err(e) => {
-                            failed += 1;
-                            let (msg, partial) = match e.split_once('\n') {
-                                Some((m, p)) => (m.to_string(), p.to_string()),
-                                None => (e.clone(), String::new()),
-                            };
-                            eprintln!("{}: {}: {}", ent.file, obs, msg);
-                            lean += &partial;
-                            writeln!(lean, "-- TRANSLATION FAILED for {}: {}\n", obs, msg.replace('\n', " ")).unwrap();
-                        }
+        }
+        if let Some(e) = parse_err {
+            failed += 1;
+            writeln!(lean, "-- TRANSLATION FAILED: {}", e).unwrap();
+        } else {
+            let mut ctx = Ctx::default();
+            for it in &items {
+                if let Item::Type(t) = it {
+                    let ps: Vec<String> = t
+                        .generics
+                        .params
+                        .iter()
+                        .filter_map(|p| if let GenericParam::Type(tp) = p { Some(tp.ident.to_string()) } else { None })
+                        .collect();
+                    ctx.aliases.insert(t.ident.to_string(), (ps, (*t.ty).clone()));
+                }
+            }
+            // structs of imported modules (only the slot observer so far)
+            if ent.imports.contains(&"RcObserver") {
+                let mut methods = HashMap::new();
+                methods.insert("next".to_string(), MethodInfo { effectful: true, params: vec![("value".into(), Ty::Val)] });
+                methods.insert("error".to_string(), MethodInfo { effectful: true, params: vec![("err".into(), Ty::Err)] });
+                methods.insert("complete".to_string(), MethodInfo { effectful: true, params: vec![] });
+                methods.insert("is_finished".to_string(), MethodInfo { effectful: false, params: vec![] });
+                ctx.structs.insert(
+                    "RcObserver".into(),
+                    StructInfo {
+                        name: "RcObserver".into(),
+                        fields: vec![],
+                        methods,
+                        root_ty: Some(Ty::Opt(Box::new(Ty::Obs))),
+                        prefix: "Rx.Gen.RcObserver.".into(),
+                    },
+                );
+            }
+            for en in ent.enums {
+                match translate_enum(&items, en, &mut ctx) {
+                    Ok(s) => lean += &s,
+                    Err(e) => {
+                        failed += 1;
+                        eprintln!("{}: enum {}: {}", ent.file, en, e);
+                        writeln!(lean, "-- TRANSLATION FAILED for enum {}: {}\n", en, e).unwrap();
                     }
                 }
-                for (op, obs) in ent.inits {
-                    match translate_init(&items, op, obs, &structs) {
-                        Ok(s) => lean += &s,
-                        Err(e) => {
-                            failed += 1;
-                            eprintln!("{}: init of {}: {}", ent.file, obs, e);
-                            writeln!(lean, "-- TRANSLATION FAILED for the initial state of {}: {}\n", obs, e.replace('\n', " ")).unwrap();
-                        }
+            }
+            for obs in ent.observers {
+                let hints: HashMap<String, Ty> =
+                    ent.hints.iter().filter(|h| h.0 == *obs).map(|h| (h.1.to_string(), parse_spec(h.2))).collect();
+                match translate_observer(&items, obs, &mut ctx, &hints) {
+                    Ok(s) => lean += &s,
+                    Err(e) => {
+                        failed += 1;
+                        let (msg, partial) = match e.split_once('\n') {
+                            Some((m, p)) => (m.to_string(), p.to_string()),
+                            None => (e.clone(), String::new()),
+                        };
+                        eprintln!("{}: {}: {}", ent.file, obs, msg);
+                        lean += &partial;
+                        writeln!(lean, "-- TRANSLATION FAILED for {}: {}\n", obs, msg.replace('\n', " ")).unwrap();
+                    }
+                }
+            }
+            for op in ent.wirings {
+                match translate_wiring(&items, op, ent.observers) {
+                    Ok(s) => lean += &s,
+                    Err(e) => {
+                        failed += 1;
+                        eprintln!("{}: wiring of {}: {}", ent.file, op, e);
+                        writeln!(lean, "-- TRANSLATION FAILED for the wiring of {}: {}\n", op, e.replace('\n', " ")).unwrap();
+                    }
+                }
+            }
+            for (op, obs) in ent.inits {
+                let hints: HashMap<String, Ty> =
+                    ent.hints.iter().filter(|h| h.0 == *op).map(|h| (h.1.to_string(), parse_spec(h.2))).collect();
+                match translate_init(&items, op, obs, &ctx, &hints) {
+                    Ok(s) => lean += &s,
+                    Err(e) => {
+                        failed += 1;
+                        eprintln!("{}: init of {}: {}", ent.file, obs, e);
+                        writeln!(lean, "-- TRANSLATION FAILED for the initial state of {}: {}\n", obs, e.replace('\n', " ")).unwrap();
                     }
                 }
             }
